@@ -671,6 +671,17 @@ func (b *Builder) of1(v ssa.Value, at ssa.Instruction, depth int) *Term {
 				return b.mk("load", "", v, b.mk("iaddr", "", nil, xt.Args[0], b.of(x.Index, at, depth+1)))
 			}
 		}
+		if xt.Op == "slice" && len(xt.Args) == 3 {
+			if bt, isB := x.X.Type().Underlying().(*types.Basic); isB && bt.Info()&types.IsString != 0 {
+				// s[lo:hi][k] is s[lo+k] (a named sub-string indexed instead of the string itself)
+				it := b.of(x.Index, at, depth+1)
+				if lo := xt.Args[1]; lo.IsInt(0) {
+					return b.mk("index", "", v, xt.Args[0], it)
+				} else {
+					return b.mk("index", "", v, xt.Args[0], canonBin(&Term{Op: "bin", Name: "+", V: x.Index, Args: []*Term{lo, it}}))
+				}
+			}
+		}
 		return b.mk("index", "", v, xt, b.of(x.Index, at, depth+1))
 	case *ssa.Lookup:
 		return b.mk("lookup", "", v, b.of(x.X, at, depth+1), b.of(x.Index, at, depth+1))
